@@ -2,6 +2,8 @@ import Oracle.AccessUtil
 import MobiusModel.AccessYaml
 import MobiusModel.Generated.AccessYaml
 import MobiusModel.Generated.Consts
+import MobiusModel.AccountsWire
+import MobiusModel.AccountsFault
 /-! Oracle handlers for C16: save / load of the access bitmap over the regenerated tables, the
     documented names, the legacy array. -/
 namespace Oracle
@@ -12,7 +14,40 @@ def genTables : Tables := ⟨Generated.accessConsts, Generated.unmarshalTable, G
 def intOf (s : String) : Int :=
   if s.startsWith "n" then - (Int.ofNat (num (s.drop 1).toString)) else Int.ofNat (num s)
 
+/-- environment of the account model for the edit paths: hashes are the password bytes -/
+def envE : Accounts.Env Bytes := ⟨id, fun h q => h == q, 255⟩
+
+/-- the fixture of the edit families: account "u" with privileges `b0` (memory and file) -/
+def editState (b0 : Bytes) : Accounts.State Bytes :=
+  let u : Accounts.Account Bytes := ⟨[117], [117], [], b0⟩
+  ⟨AMap.empty.set u.login u, AMap.empty.set (u.login ++ Accounts.yamlExt) u⟩
+
+/-- privileges of `target` in memory, and what its file (named flags) loads to -/
+def editView (st : Accounts.State Bytes) (target : Bytes) : String :=
+  match st.mem.get target, st.disk.get (target ++ Accounts.yamlExt) with
+  | some a, some d => toHex a.access ++ " " ++ bitmapStr (load genTables (save genTables (AccessBitmap.ofBytes d.access)))
+  | _, _ => "absent"
+
 def c16Handlers : List (String × Handler) := [
+  -- c16edit <target login hex> <b0 hex8> <request bytes hex> : the account model on the BYTES of an edit request
+  ("c16edit", fun (a : List String) => match a with
+    | [_, b0, raw] =>
+      let st := (Accounts.stepWire envE (editState (hexb b0)) (hexb raw)).1
+      -- the edited account is the one that is not "admin": u, renamed or fresh
+      let ts := st.mem.toList.map (·.1)
+      String.intercalate "|" (ts.map fun t => editView st t)
+    | _ => "bad-op"),
+  -- c16failedsave <N|S|U> <b0> <b1> : the same edits while the temporary file cannot be written
+  ("c16failedsave", fun (a : List String) => match a with
+    | [kind, b0, b1] =>
+      let u : Bytes := [117]
+      let fresh : Bytes := [102, 114, 101, 115, 104]
+      let fsU : List Field := [⟨105, obfuscate u⟩, ⟨102, u⟩, ⟨106, [0]⟩, ⟨110, hexb b1⟩]
+      let fsN : List Field := [⟨105, obfuscate fresh⟩, ⟨102, [102]⟩, ⟨106, [1]⟩, ⟨110, hexb b1⟩]
+      let (op, target) : Accounts.Op × Bytes :=
+        if kind = "S" then (.setUser fsU, u) else if kind = "U" then (.updateUser [fsU], u) else (.newUser fsN, fresh)
+      editView (Accounts.stepF envE (editState (hexb b0)) (.tmpBlocked, op)).1 target
+    | _ => "bad-op"),
   -- specname <bit> : the documented account-file name of privilege <bit> ("-" if undefined)
   ("specname", fun (a : List String) => match a with
     | [i] => match Spec.accessYamlNames.find? (fun e => e.2 == num i) with
